@@ -1,7 +1,539 @@
-(* Proofs about the event codec (Rt/CodecDefs.v) *)
-From OV Require Import Base.CInt Rt.CodecPre Gen.Codec_gen Rt.CodecDefs.
+(* Proofs about the event codec (Rt/CodecDefs.v):
+   - the flag-nibble arithmetic of ovni_payload_add, by a whole-domain sweep
+     (256 flag values x chunk sizes 2..16) lifted to a forall;
+   - what ovni_payload_add / build produce and exactly when they die;
+   - the memory image copied by ovni_ev_add is the documented encoding;
+   - parse (encode es) = es (unique decodability), parse never runs out of fuel. *)
+From OV Require Import Base.CInt Rt.CodecPre Gen.Codec_gen Rt.CodecDefs Rt.RtBufDefs.
 From Coq Require Import ZifyBool.
 Local Open Scope Z_scope.
 
+(* ------------------------------------------------------------------ generic helpers *)
+
+Lemma zlength_acc {A} (l : list A) : forall a, fold_left (fun n _ => n + 1) l a = a + Z.of_nat (length l).
+Proof.
+  induction l as [|x l IH]; intros a; cbn [fold_left length].
+  - lia.
+  - rewrite IH. lia.
+Qed.
+
+Lemma zlength_len {A} (l : list A) : zlength l = Z.of_nat (length l).
+Proof. unfold zlength. rewrite zlength_acc. lia. Qed.
+
+Lemma zlength_nonneg {A} (l : list A) : 0 <= zlength l.
+Proof. rewrite zlength_len. lia. Qed.
+
+Lemma zlength_app {A} (a b : list A) : zlength (a ++ b) = zlength a + zlength b.
+Proof. rewrite !zlength_len, app_length. lia. Qed.
+
+Lemma zlength_nil {A} : zlength (@nil A) = 0.
+Proof. reflexivity. Qed.
+
+Lemma zlength_cons {A} (x : A) l : zlength (x :: l) = 1 + zlength l.
+Proof. rewrite !zlength_len. cbn [length]. lia. Qed.
+
+Lemma zlength_to_nat {A} (l : list A) : Z.to_nat (zlength l) = length l.
+Proof. rewrite zlength_len. lia. Qed.
+
+Lemma zlength_zero_nil {A} (l : list A) : zlength l = 0 -> l = [].
+Proof. rewrite zlength_len. destruct l; cbn [length]; [reflexivity | lia]. Qed.
+
+Definition zrange (lo : Z) (n : nat) : list Z := map (fun i => lo + Z.of_nat i) (seq 0 n).
+
+Lemma in_zrange lo n z : lo <= z < lo + Z.of_nat n -> In z (zrange lo n).
+Proof.
+  intros H. unfold zrange. apply in_map_iff. exists (Z.to_nat (z - lo)). split.
+  - lia.
+  - apply in_seq. lia.
+Qed.
+
+Lemma zrange_forall (P : Z -> bool) lo n :
+  forallb P (zrange lo n) = true -> forall z, lo <= z < lo + Z.of_nat n -> P z = true.
+Proof. intros H z Hz. rewrite forallb_forall in H. apply H. apply in_zrange. exact Hz. Qed.
+
+Lemma skipn_repeat {A} (a : A) : forall n k, skipn n (repeat a k) = repeat a (k - n).
+Proof.
+  induction n as [|n IH]; intros k.
+  - rewrite Nat.sub_0_r. reflexivity.
+  - destruct k as [|k]; cbn [repeat skipn Nat.sub]; [reflexivity | apply IH].
+Qed.
+
+Lemma firstn_exact {A} (a b : list A) n : n = length a -> firstn n (a ++ b) = a.
+Proof.
+  intros ->. rewrite firstn_app, Nat.sub_diag, firstn_all. cbn [firstn]. apply app_nil_r.
+Qed.
+
+Lemma skipn_exact {A} (a b : list A) n : n = length a -> skipn n (a ++ b) = b.
+Proof.
+  intros ->. rewrite skipn_app, Nat.sub_diag, skipn_all. reflexivity.
+Qed.
+
+(* ------------------------------------------------------------------ little endian *)
+
+Lemma le_bytes_length n : forall z, length (le_bytes n z) = n.
+Proof. induction n as [|n IH]; intros z; cbn [le_bytes length]; [reflexivity | rewrite IH; reflexivity]. Qed.
+
+Lemma le_bytes_byte n : forall z, Forall byte (le_bytes n z).
+Proof.
+  induction n as [|n IH]; intros z; cbn [le_bytes]; constructor.
+  - unfold byte. apply Z.mod_pos_bound. lia.
+  - apply IH.
+Qed.
+
+Lemma le_val_le_bytes n : forall z, le_val (le_bytes n z) = z mod 256 ^ Z.of_nat n.
+Proof.
+  induction n as [|n IH]; intros z.
+  - cbn [le_bytes le_val]. rewrite Z.mod_1_r. reflexivity.
+  - cbn [le_bytes le_val]. rewrite IH.
+    replace (Z.of_nat (S n)) with (1 + Z.of_nat n) by lia.
+    rewrite Z.pow_add_r by lia. rewrite Z.pow_1_r.
+    rewrite Z.rem_mul_r by (try lia; apply Z.pow_pos_nonneg; lia). reflexivity.
+Qed.
+
+Lemma le_val_le_bytes_small n z : 0 <= z < 256 ^ Z.of_nat n -> le_val (le_bytes n z) = z.
+Proof. intros H. rewrite le_val_le_bytes. apply Z.mod_small. exact H. Qed.
+
+Lemma zlength_le_bytes n z : zlength (le_bytes n z) = Z.of_nat n.
+Proof. rewrite zlength_len, le_bytes_length. reflexivity. Qed.
+
+Global Opaque le_bytes.
+
+(* ------------------------------------------------------------------ take *)
+
+Lemma take_app a : forall b, take (length a) (a ++ b) = Some (a, b).
+Proof.
+  induction a as [|x a IH]; intros b; cbn [length take app]; [reflexivity | rewrite IH; reflexivity].
+Qed.
+
+Lemma take_some n : forall l a b, take n l = Some (a, b) -> l = a ++ b /\ length a = n.
+Proof.
+  induction n as [|n IH]; intros l a b H; cbn [take] in H.
+  - inversion H. subst. split; reflexivity.
+  - destruct l as [|x r]; [discriminate|].
+    destruct (take n r) as [[a' b']|] eqn:E; [|discriminate].
+    inversion H. subst. apply IH in E. destruct E as [-> <-]. split; reflexivity.
+Qed.
+
+(* ------------------------------------------------------------------ constants of the source agree with the documented format *)
+
 Lemma const_jumbo : c_OVNI_EV_JUMBO = JUMBO_FLAG.
 Proof. reflexivity. Qed.
+Lemma const_header_size : c_sizeof_struct_ovni_ev_header = HEADER_SIZE.
+Proof. reflexivity. Qed.
+Lemma const_payload_size : c_sizeof_union_ovni_ev_payload = 16.
+Proof. reflexivity. Qed.
+Lemma const_stream_header_size : c_sizeof_struct_ovni_stream_header = 8.
+Proof. reflexivity. Qed.
+Lemma const_stream_version : c_OVNI_STREAM_VERSION = 1.
+Proof. reflexivity. Qed.
+
+(* ------------------------------------------------------------------ the flag nibble *)
+
+(* ovni_payload_size only looks at the flags of a non-jumbo event *)
+Definition flags_ev (fl : Z) : ovni_ev := mkEv fl 0 0 0 0 [].
+
+Lemma payload_size_flags ev :
+  Z.land (h_flags ev) c_OVNI_EV_JUMBO = 0 -> ovni_payload_size ev = ovni_payload_size (flags_ev (h_flags ev)).
+Proof.
+  intros H. unfold ovni_payload_size, get_header_flags. cbn [h_flags flags_ev]. rewrite H. reflexivity.
+Qed.
+
+(* one cell of the sweep: flags fl (any of the 256 values), chunk size sz *)
+Definition nibble_cell (fl sz : Z) : bool :=
+  if negb (Z.land fl c_OVNI_EV_JUMBO =? 0) then true
+  else
+    let ps := cast_uint64 (ovni_payload_size (flags_ev fl)) in
+    if ps + sz >? c_sizeof_union_ovni_ev_payload then true
+    else
+      let fl' := cast_uint8 (Z.lor (Z.land fl 240) (Z.land (ps + sz - 1) 15)) in
+      (ovni_payload_size (flags_ev fl') =? ps + sz) &&
+      (Z.land fl' 240 =? Z.land fl 240) &&
+      (Z.land fl' c_OVNI_EV_JUMBO =? 0) &&
+      (ps =? ovni_payload_size (flags_ev fl)) && (0 <=? ps) && (ps <=? 16) &&
+      (if fl <? 16 then fl' =? nibble (ps + sz) else true).
+
+Lemma nibble_sweep :
+  forallb (fun fl => forallb (nibble_cell fl) (zrange 2 15)) (zrange 0 256) = true.
+Proof. vm_compute. reflexivity. Qed.
+
+Lemma nibble_cell_all fl sz : 0 <= fl < 256 -> 2 <= sz <= 16 -> nibble_cell fl sz = true.
+Proof.
+  intros Hf Hs.
+  pose proof (zrange_forall _ 0 256 nibble_sweep fl ltac:(lia)) as H. cbv beta in H.
+  apply (zrange_forall _ 2 15 H sz). lia.
+Qed.
+
+(* sizes of payloads with clear high nibble: 0 -> 0 ; k in 1..15 -> k+1 *)
+Definition small_cell (fl : Z) : bool :=
+  (ovni_payload_size (flags_ev fl) =? (if fl =? 0 then 0 else fl + 1)) &&
+  (Z.land fl c_OVNI_EV_JUMBO =? 0).
+
+Lemma small_sweep : forallb small_cell (zrange 0 16) = true.
+Proof. vm_compute. reflexivity. Qed.
+
+Lemma nibble_range n : n = 0 \/ 2 <= n <= 16 -> 0 <= nibble n < 16.
+Proof. intros H. unfold nibble. destruct (n =? 0) eqn:E; lia. Qed.
+
+Lemma payload_size_nibble ev n :
+  (n = 0 \/ 2 <= n <= 16) -> h_flags ev = nibble n ->
+  ovni_payload_size ev = n /\ Z.land (h_flags ev) c_OVNI_EV_JUMBO = 0.
+Proof.
+  intros Hn Hf.
+  pose proof (nibble_range n Hn) as Hr.
+  pose proof (zrange_forall _ 0 16 small_sweep (nibble n) ltac:(lia)) as H.
+  unfold small_cell in H. apply andb_prop in H. destruct H as [H1 H2].
+  assert (HJ : Z.land (h_flags ev) c_OVNI_EV_JUMBO = 0) by (rewrite Hf; apply Z.eqb_eq; exact H2).
+  apply Z.eqb_eq in H1.
+  split; [|exact HJ].
+  rewrite payload_size_flags by exact HJ. rewrite Hf.
+  unfold nibble in *. destruct (n =? 0) eqn:E.
+  - rewrite H1. cbn. lia.
+  - rewrite H1. destruct (n - 1 =? 0) eqn:E2; lia.
+Qed.
+
+(* The general statement about ovni_payload_add, for every flags byte: the size grows by
+   exactly the chunk and the reserved (high) nibble is left alone. *)
+Theorem payload_add_nibble ev buf ev' :
+  0 <= h_flags ev < 256 ->
+  ovni_payload_add ev buf = Ret ev' ->
+  ovni_payload_size ev' = ovni_payload_size ev + zlength buf /\
+  Z.land (h_flags ev') 240 = Z.land (h_flags ev) 240 /\
+  2 <= zlength buf /\ ovni_payload_size ev + zlength buf <= 16.
+Proof.
+  intros Hf H. unfold ovni_payload_add in H.
+  destruct (negb (Z.land (h_flags ev) c_OVNI_EV_JUMBO =? 0)) eqn:EJ; [discriminate|].
+  destruct (zlength buf <? 2) eqn:E2; [discriminate|].
+  destruct (cast_uint64 (ovni_payload_size ev) + zlength buf >? c_sizeof_union_ovni_ev_payload) eqn:E3; [discriminate|].
+  inversion H; subst ev'; clear H.
+  assert (HJ : Z.land (h_flags ev) c_OVNI_EV_JUMBO = 0) by lia.
+  assert (Hs : 2 <= zlength buf <= 16).
+  { split; [lia|]. rewrite payload_size_flags in E3 by exact HJ.
+    pose proof (nibble_cell_all (h_flags ev) 2 Hf ltac:(lia)) as C. unfold nibble_cell in C.
+    rewrite EJ in C.
+    destruct (cast_uint64 (ovni_payload_size (flags_ev (h_flags ev))) + 2 >? c_sizeof_union_ovni_ev_payload) eqn:E4.
+    - change c_sizeof_union_ovni_ev_payload with 16 in *. lia.
+    - repeat (apply andb_prop in C; destruct C as [C ?]).
+      change c_sizeof_union_ovni_ev_payload with 16 in *. lia. }
+  pose proof (nibble_cell_all (h_flags ev) (zlength buf) Hf Hs) as C. unfold nibble_cell in C.
+  rewrite EJ in C. rewrite payload_size_flags in E3 by exact HJ. rewrite E3 in C.
+  repeat (apply andb_prop in C; destruct C as [C ?]).
+  rewrite (payload_size_flags ev) by exact HJ.
+  set (ps := cast_uint64 (ovni_payload_size (flags_ev (h_flags ev)))) in *.
+  set (fl' := cast_uint8 (Z.lor (Z.land (h_flags ev) 240) (Z.land (ps + zlength buf - 1) 15))) in *.
+  apply Z.eqb_eq in H3. apply Z.eqb_eq in H4. apply Z.eqb_eq in C. apply Z.eqb_eq in H2.
+  assert (P : ovni_payload_size (set_flags (set_payload ev (splice (ev_payload ev) ps buf)) fl') =
+              ovni_payload_size (flags_ev fl')).
+  { rewrite payload_size_flags; cbn [h_flags set_flags set_payload]; [reflexivity | exact H3]. }
+  rewrite P. cbn [h_flags set_flags set_payload].
+  change c_sizeof_union_ovni_ev_payload with 16 in *. lia.
+Qed.
+
+(* ------------------------------------------------------------------ events built through the API *)
+
+(* ev was obtained from a zeroed struct by payload_add's that appended pl *)
+Definition built (pl : list Z) (ev : ovni_ev) : Prop :=
+  h_flags ev = nibble (zlength pl) /\
+  ev_payload ev = pl ++ repeat 0 (16 - length pl) /\
+  (zlength pl = 0 \/ 2 <= zlength pl <= 16).
+
+Lemma built_zero m c v : built [] (ovni_ev_set_mcv ev_zero m c v).
+Proof. unfold built. cbn. repeat split. left. reflexivity. Qed.
+
+Lemma built_set_clock pl ev t : built pl ev -> built pl (ovni_ev_set_clock ev t).
+Proof. unfold built. cbn [ovni_ev_set_clock h_flags ev_payload]. tauto. Qed.
+
+Lemma built_size pl ev : built pl ev -> ovni_payload_size ev = zlength pl /\ Z.land (h_flags ev) c_OVNI_EV_JUMBO = 0.
+Proof. intros (Hf & _ & Hn). apply payload_size_nibble; [lia | exact Hf]. Qed.
+
+Lemma cast_uint64_small z : 0 <= z <= 2 ^ 32 -> cast_uint64 z = z.
+Proof. intros H. apply wrapu_small. lia. Qed.
+
+Lemma payload_add_built pl ev ch :
+  built pl ev ->
+  ovni_payload_add ev ch =
+  if (zlength ch <? 2) || (zlength pl + zlength ch >? 16) then Die
+  else Ret (set_flags (set_payload ev ((pl ++ ch) ++ repeat 0 (16 - length (pl ++ ch)))) (nibble (zlength (pl ++ ch)))).
+Proof.
+  intros B. pose proof (built_size pl ev B) as [Hs HJ]. destruct B as (Hf & Hp & Hn).
+  unfold ovni_payload_add. rewrite HJ. cbn [Z.eqb negb].
+  destruct (zlength ch <? 2) eqn:E2; cbn [orb]; [reflexivity|].
+  rewrite Hs. rewrite cast_uint64_small by lia.
+  change c_sizeof_union_ovni_ev_payload with 16.
+  destruct (zlength pl + zlength ch >? 16) eqn:E3; [reflexivity|].
+  f_equal. f_equal.
+  - (* payload *)
+    f_equal. unfold splice. rewrite Hp.
+    rewrite zlength_to_nat. rewrite firstn_exact by reflexivity.
+    rewrite skipn_app.
+    assert (L : (length pl + length ch - length pl = length ch)%nat) by lia. rewrite L.
+    rewrite skipn_all2 by lia. rewrite skipn_repeat. cbn [app].
+    rewrite <- app_assoc. f_equal. f_equal. f_equal. rewrite app_length. lia.
+  - (* flags *)
+    assert (Hfl : 0 <= h_flags ev < 16) by (rewrite Hf; apply nibble_range; lia).
+    pose proof (nibble_cell_all (h_flags ev) (zlength ch) ltac:(lia) ltac:(lia)) as C.
+    unfold nibble_cell in C. rewrite HJ in C. cbn [Z.eqb negb] in C.
+    rewrite <- (payload_size_flags ev) in C by exact HJ. rewrite Hs in C.
+    rewrite cast_uint64_small in C by lia. change c_sizeof_union_ovni_ev_payload with 16 in C.
+    rewrite E3 in C.
+    repeat (apply andb_prop in C; destruct C as [C ?]).
+    destruct (h_flags ev <? 16) eqn:E4; [|lia].
+    rewrite zlength_app. lia.
+Qed.
+
+Lemma built_after pl ev ch :
+  built pl ev -> 2 <= zlength ch -> zlength pl + zlength ch <= 16 ->
+  built (pl ++ ch) (set_flags (set_payload ev ((pl ++ ch) ++ repeat 0 (16 - length (pl ++ ch)))) (nibble (zlength (pl ++ ch)))).
+Proof.
+  intros B H2 H16. unfold built. cbn [h_flags ev_payload set_flags set_payload].
+  repeat split. right. rewrite zlength_app. pose proof (zlength_nonneg pl). lia.
+Qed.
+
+(* fold of payload_add over the chunks, from a state that already holds pl *)
+Definition build_from (r : res ovni_ev) (chunks : list (list Z)) : res ovni_ev :=
+  fold_left (fun r ch => match r with Ret e => ovni_payload_add e ch | Die => Die end) chunks r.
+
+Lemma build_from_die chunks : build_from Die chunks = Die.
+Proof. induction chunks as [|ch r IH]; cbn [build_from fold_left]; [reflexivity | exact IH]. Qed.
+
+Lemma build_from_spec chunks : forall pl ev,
+  built pl ev ->
+  (forallb (fun ch => 2 <=? zlength ch) chunks && (zlength (pl ++ concat chunks) <=? 16) = true ->
+     exists ev', build_from (Ret ev) chunks = Ret ev' /\ built (pl ++ concat chunks) ev' /\
+                 h_model ev' = h_model ev /\ h_category ev' = h_category ev /\ h_value ev' = h_value ev /\
+                 h_clock ev' = h_clock ev) /\
+  (forallb (fun ch => 2 <=? zlength ch) chunks && (zlength (pl ++ concat chunks) <=? 16) = false ->
+     build_from (Ret ev) chunks = Die).
+Proof.
+  induction chunks as [|ch r IH]; intros pl ev B.
+  - cbn [build_from fold_left forallb concat andb]. rewrite app_nil_r. split.
+    + intros _. exists ev. split; [reflexivity|]. split; [exact B|]. repeat split.
+    + intros H. destruct B as (_ & _ & Hn). lia.
+  - cbn [build_from fold_left forallb concat]. fold (build_from (ovni_payload_add ev ch) r).
+    rewrite (payload_add_built pl ev ch B).
+    pose proof (zlength_nonneg (concat r)) as Hc. pose proof (zlength_nonneg pl) as Hpl.
+    rewrite !zlength_app.
+    destruct (zlength ch <? 2) eqn:E2; cbn [orb].
+    { rewrite build_from_die. split; [|reflexivity]. intros H. lia. }
+    destruct (zlength pl + zlength ch >? 16) eqn:E3.
+    { rewrite build_from_die. split; [|reflexivity]. intros H. lia. }
+    pose proof (built_after pl ev ch B ltac:(lia) ltac:(lia)) as B'.
+    specialize (IH (pl ++ ch) _ B'). rewrite <- app_assoc in IH. rewrite !zlength_app in IH.
+    destruct IH as [IH1 IH2]. split.
+    + intros H. destruct IH1 as (ev' & E & Bf & ?). { lia. }
+      exists ev'. split; [exact E|]. split; [exact Bf|]. cbn [h_model h_category h_value h_clock set_flags set_payload] in *. tauto.
+    + intros H. apply IH2. lia.
+Qed.
+
+Theorem build_ok m c v chunks :
+  chunks_okb chunks = true ->
+  exists ev, build m c v chunks = Ret ev /\ built (concat chunks) ev /\
+             h_model ev = m /\ h_category ev = c /\ h_value ev = v /\ h_clock ev = 0.
+Proof.
+  intros H. unfold chunks_okb in H.
+  destruct (build_from_spec chunks [] _ (built_zero m c v)) as [S1 _].
+  cbn [app] in S1. destruct (S1 H) as (ev & E & B & ?). exists ev. split; [exact E|]. split; [exact B|].
+  cbn in *. tauto.
+Qed.
+
+Theorem build_die m c v chunks : chunks_okb chunks = false -> build m c v chunks = Die.
+Proof.
+  intros H. unfold chunks_okb in H.
+  destruct (build_from_spec chunks [] _ (built_zero m c v)) as [_ S2]. apply S2. exact H.
+Qed.
+
+(* ------------------------------------------------------------------ the copied image is the documented encoding *)
+
+Lemma ovni_ev_size_built pl ev : built pl ev -> cast_uint64 (ovni_ev_size ev) = 12 + zlength pl.
+Proof.
+  intros B. destruct (built_size pl ev B) as [Hs _]. unfold ovni_ev_size. rewrite Hs.
+  change (cast_int32 c_sizeof_struct_ovni_ev_header) with 12.
+  destruct B as (_ & _ & Hn). apply cast_uint64_small. lia.
+Qed.
+
+Lemma image_built pl ev :
+  built pl ev ->
+  ev_image ev (12 + zlength pl) =
+  [h_flags ev; h_model ev; h_category ev; h_value ev] ++ le_bytes 8 (h_clock ev) ++ pl.
+Proof.
+  intros (Hf & Hp & Hn). unfold ev_image, struct_bytes. rewrite Hp.
+  rewrite !app_assoc. apply firstn_exact.
+  rewrite !app_length, le_bytes_length. cbn [length]. pose proof (zlength_len pl). lia.
+Qed.
+
+Theorem image_normal m c v t chunks ev :
+  build m c v chunks = Ret ev -> chunks_okb chunks = true ->
+  let ev' := ovni_ev_set_clock ev t in
+  cast_uint64 (ovni_ev_size ev') = esize (mkU false m c v t (concat chunks)) /\
+  ev_image ev' (cast_uint64 (ovni_ev_size ev')) = encode (mkU false m c v t (concat chunks)).
+Proof.
+  intros E H. destruct (build_ok m c v chunks H) as (ev0 & E0 & B & Hm & Hc & Hv & _).
+  rewrite E in E0. inversion E0; subst ev0; clear E0.
+  cbn zeta. pose proof (built_set_clock _ _ t B) as B'.
+  rewrite (ovni_ev_size_built _ _ B'). split.
+  - reflexivity.
+  - rewrite (image_built _ _ B'). unfold encode. cbn [u_jumbo u_data u_m u_c u_v u_clock ovni_ev_set_clock h_flags h_model h_category h_value h_clock].
+    destruct B as (Hf & _). rewrite Hf, Hm, Hc, Hv. reflexivity.
+Qed.
+
+Lemma image_set_flags ev f n : 0 < n -> ev_image (set_flags ev f) n = f :: tl (ev_image ev n).
+Proof.
+  intros H. unfold ev_image, struct_bytes.
+  cbn [set_flags h_flags h_model h_category h_value h_clock ev_payload app].
+  destruct (Z.to_nat n) eqn:E; [lia|]. reflexivity.
+Qed.
+
+(* the jumbo header: payload_add of the 4-byte size on an empty event, then the jumbo flag *)
+Theorem image_jumbo m c v t n :
+  0 <= n < 2 ^ 32 ->
+  let ev := ovni_ev_set_clock (ovni_ev_set_mcv ev_zero m c v) t in
+  ovni_payload_size ev = 0 /\
+  exists ev1, ovni_payload_add ev (le_bytes 4 n) = Ret ev1 /\
+              cast_uint64 (ovni_ev_size ev1) = 16 /\
+              ev_image (set_flags ev1 (Z.lor (h_flags ev1) c_OVNI_EV_JUMBO)) 16 =
+              [JUMBO_FLAG + 3; m; c; v] ++ le_bytes 8 t ++ le_bytes 4 n.
+Proof.
+  intros Hn. cbn zeta.
+  pose proof (built_set_clock _ _ t (built_zero m c v)) as B.
+  destruct (built_size _ _ B) as [Hs _]. split; [exact Hs|].
+  rewrite (payload_add_built [] _ (le_bytes 4 n) B).
+  assert (Cnd : (zlength (le_bytes 4 n) <? 2) || (zlength (@nil Z) + zlength (le_bytes 4 n) >? 16) = false)
+    by (rewrite zlength_le_bytes; reflexivity).
+  rewrite Cnd. eexists. split; [reflexivity|].
+  assert (B1 := built_after [] _ (le_bytes 4 n) B).
+  rewrite zlength_le_bytes in B1. specialize (B1 ltac:(cbn; lia) ltac:(cbn; lia)).
+  set (ev1 := set_flags _ _) in *.
+  assert (F1 : h_flags ev1 = 3).
+  { unfold ev1. cbn [h_flags set_flags app]. rewrite zlength_le_bytes. reflexivity. }
+  split.
+  - rewrite (ovni_ev_size_built _ _ B1). cbn [app]. rewrite zlength_le_bytes. reflexivity.
+  - rewrite image_set_flags by lia.
+    pose proof (image_built _ _ B1) as I. cbn [app] in I. rewrite zlength_le_bytes in I.
+    change (12 + Z.of_nat 4) with 16 in I. rewrite I. rewrite F1.
+    unfold ev1. cbn [tl app h_model h_category h_value h_clock set_flags set_payload ovni_ev_set_clock ovni_ev_set_mcv].
+    reflexivity.
+Qed.
+
+(* ------------------------------------------------------------------ parse . encode = id *)
+
+Lemma wf_uev_inv e :
+  wf_uev e ->
+  byte (u_m e) /\ byte (u_c e) /\ byte (u_v e) /\ 0 <= u_clock e < 2 ^ 64 /\
+  (if u_jumbo e then zlength (u_data e) < 2 ^ 32
+   else zlength (u_data e) = 0 \/ 2 <= zlength (u_data e) <= 16).
+Proof.
+  unfold wf_uev, wf_uevb, byteb, byte. intros H.
+  repeat (apply andb_prop in H; destruct H as [H ?]).
+  destruct (u_jumbo e); lia.
+Qed.
+
+Lemma parse_step e f rest :
+  wf_uev e -> parse (S f) (encode e ++ rest) = pcons e (parse f rest).
+Proof.
+  intros W. destruct (wf_uev_inv e W) as (_ & _ & _ & Hc & Hd).
+  destruct e as [j m c v t d]. cbn [u_jumbo u_m u_c u_v u_clock u_data] in *.
+  unfold encode. cbn [u_jumbo u_m u_c u_v u_clock u_data].
+  destruct j.
+  - cbn [app parse].
+    rewrite <- app_assoc.
+    pose proof (take_app (le_bytes 8 t) ((le_bytes 4 (zlength d) ++ d) ++ rest)) as T8.
+    rewrite le_bytes_length in T8. rewrite T8.
+    rewrite Z.eqb_refl. rewrite <- app_assoc.
+    pose proof (take_app (le_bytes 4 (zlength d)) (d ++ rest)) as T4.
+    rewrite le_bytes_length in T4. rewrite T4.
+    rewrite !le_val_le_bytes_small by (pose proof (zlength_nonneg d); cbn; lia).
+    rewrite zlength_to_nat, take_app. reflexivity.
+  - cbn [app parse].
+    rewrite <- app_assoc.
+    pose proof (take_app (le_bytes 8 t) (d ++ rest)) as T8.
+    rewrite le_bytes_length in T8. rewrite T8.
+    pose proof (nibble_range (zlength d) Hd) as Hr.
+    assert (E19 : (nibble (zlength d) =? JUMBO_FLAG + 3) = false) by (unfold JUMBO_FLAG; lia).
+    rewrite E19.
+    assert (E15 : ((0 <=? nibble (zlength d)) && (nibble (zlength d) <=? 15)) = true) by lia.
+    rewrite E15.
+    assert (En : (if nibble (zlength d) =? 0 then 0 else nibble (zlength d) + 1) = zlength d).
+    { unfold nibble. destruct (zlength d =? 0) eqn:E0; [cbn; lia|].
+      destruct (zlength d - 1 =? 0) eqn:E1; lia. }
+    rewrite En. rewrite le_val_le_bytes_small by (cbn; lia).
+    rewrite zlength_to_nat, take_app. reflexivity.
+Qed.
+
+Lemma parse_encode_fuel es : forall f,
+  Forall wf_uev es -> (length es <= f)%nat -> parse f (flat_map encode es) = POk es.
+Proof.
+  induction es as [|e es IH]; intros f W L.
+  - cbn [flat_map]. destruct f; reflexivity.
+  - destruct f as [|f]; [cbn [length] in L; lia|].
+    inversion W; subst. cbn [flat_map]. rewrite parse_step by assumption.
+    rewrite IH; [reflexivity | assumption | cbn [length] in L; lia].
+Qed.
+
+Lemma encode_length_pos e : (1 <= length (encode e))%nat.
+Proof. unfold encode. destruct (u_jumbo e); cbn [app length]; lia. Qed.
+
+Lemma flat_encode_length es : (length es <= length (flat_map encode es))%nat.
+Proof.
+  induction es as [|e es IH]; cbn [flat_map length]; [lia|].
+  rewrite app_length. pose proof (encode_length_pos e). lia.
+Qed.
+
+Theorem parse_encode es : Forall wf_uev es -> parse_all (flat_map encode es) = POk es.
+Proof.
+  intros W. unfold parse_all. apply parse_encode_fuel; [exact W|].
+  pose proof (flat_encode_length es). lia.
+Qed.
+
+Theorem parse_stream_encode es :
+  Forall wf_uev es -> parse_stream (STREAM_HEADER ++ flat_map encode es) = POk es.
+Proof.
+  intros W. unfold parse_stream.
+  change (firstn 8 (STREAM_HEADER ++ flat_map encode es)) with STREAM_HEADER.
+  change (skipn 8 (STREAM_HEADER ++ flat_map encode es)) with (flat_map encode es).
+  replace (zlist_eqb STREAM_HEADER STREAM_HEADER) with true by (vm_compute; reflexivity).
+  apply parse_encode. exact W.
+Qed.
+
+(* encodings of well-formed event lists are uniquely decodable *)
+Corollary encode_injective es1 es2 :
+  Forall wf_uev es1 -> Forall wf_uev es2 -> flat_map encode es1 = flat_map encode es2 -> es1 = es2.
+Proof.
+  intros W1 W2 E. pose proof (parse_encode es1 W1) as P1. rewrite E, (parse_encode es2 W2) in P1.
+  inversion P1. reflexivity.
+Qed.
+
+(* ------------------------------------------------------------------ fuel *)
+
+Lemma take_rest_length n : forall l a b, take n l = Some (a, b) -> (length b <= length l)%nat.
+Proof.
+  intros l a b H. apply take_some in H. destruct H as [-> _]. rewrite app_length. lia.
+Qed.
+
+Lemma pcons_nofuel e r : pcons e r = PNoFuel -> r = PNoFuel.
+Proof. destruct r; cbn; congruence. Qed.
+
+Lemma parse_fuel_enough f : forall bs, (length bs < f)%nat -> parse f bs <> PNoFuel.
+Proof.
+  induction f as [|f IH]; intros bs L; [lia|].
+  destruct bs as [|fl [|m [|c [|v rest]]]]; cbn [parse]; try discriminate.
+  destruct (take 8 rest) as [[cb rest2]|] eqn:T8; [|discriminate].
+  pose proof (take_rest_length _ _ _ _ T8) as L8. cbn [length] in L.
+  destruct (fl =? JUMBO_FLAG + 3).
+  - destruct (take 4 rest2) as [[sb rest3]|] eqn:T4; [|discriminate].
+    pose proof (take_rest_length _ _ _ _ T4) as L4.
+    destruct (take (Z.to_nat (le_val sb)) rest3) as [[d rest4]|] eqn:Tn; [|discriminate].
+    pose proof (take_rest_length _ _ _ _ Tn) as Ln.
+    intros H. apply pcons_nofuel in H. revert H. apply IH. lia.
+  - destruct ((0 <=? fl) && (fl <=? 15)); [|discriminate].
+    destruct (take (Z.to_nat (if fl =? 0 then 0 else fl + 1)) rest2) as [[d rest3]|] eqn:Tn; [|discriminate].
+    pose proof (take_rest_length _ _ _ _ Tn) as Ln.
+    intros H. apply pcons_nofuel in H. revert H. apply IH. lia.
+Qed.
+
+Theorem parse_all_never_out_of_fuel bs : parse_all bs <> PNoFuel.
+Proof. unfold parse_all. apply parse_fuel_enough. lia. Qed.
+
+Theorem parse_stream_never_out_of_fuel bs : parse_stream bs <> PNoFuel.
+Proof.
+  unfold parse_stream. destruct (zlist_eqb (firstn 8 bs) STREAM_HEADER); [|discriminate].
+  apply parse_all_never_out_of_fuel.
+Qed.
